@@ -7,6 +7,7 @@ states), `null` is `None`.
 import GT.Base.JsonQ
 import GT.Model.RepAut
 import GT.Lemmas.RepAutGuard
+import GT.Lemmas.RepAutLangStar
 import GT.Driver.C05
 open Lean GT.J GT GT.RepW
 namespace GT.Driver.C06
@@ -93,8 +94,26 @@ def specOp (j : Json) : J.R Json := do
     let ww := (optBool c "with_words").getD false
     let ew := (optBool c "edge_words").getD true
     let en ← optNat c "end"
-    match ρ.topSpec a (← natf c "L") maxlen ww (← optNat c "start") en ew with
-    | .ok pairs => outs := outs.push (Json.mkObj [("ok", outAcc (Rep.toRes (Rep.topOpts maxlen ww en ew) pairs))])
+    let L ← natf c "L"
+    let st ← optNat c "start"
+    -- the reference path language of the call (`accepted_words_*_any`, `automatonAccepted_words_*_any`): joined label
+    -- words of the paths from the start state resp. from a start vertex to the end state (there under `Aut.WF`)
+    let strs (l : List String) : Json := .arr (l.map Json.str).toArray
+    let wf : Bool := decide (a.graph.map Prod.fst).Nodup && decide a.starts.Nodup
+    let lang : Json := match en with
+      | some e => if wf then strs (Rep.endLangJ ρ.joinW a maxlen L e) else .null
+      | none => match (st <|> a.starts.head?) with
+        | some s => strs (Rep.startLangJ ρ.joinW a maxlen L s)
+        | none => .null
+    -- the same language by plain concatenation (`startLang` / `endLang`), what a `parse_simple` representation returns
+    let lang0 : Json := if !ρ.parseSimple then .null else match en with
+      | some e => if wf then strs (Rep.endLang a maxlen L e) else .null
+      | none => match (st <|> a.starts.head?) with
+        | some s => strs (Rep.startLang a maxlen L s)
+        | none => .null
+    match ρ.topSpec a L maxlen ww st en ew with
+    | .ok pairs => outs := outs.push (Json.mkObj [("ok", outAcc (Rep.toRes (Rep.topOpts maxlen ww en ew) pairs)),
+        ("lang", lang), ("lang0", lang0)])
     | .error e => outs := outs.push (Json.mkObj [("err", .str e)])
   return .arr outs
 
